@@ -147,6 +147,9 @@ func (f *Subseq) getArgs(s *slip.Scope, args slip.List, depth int) (start, end i
 			slip.TypePanic(s, depth, "end", args[2], "non negative fixnum")
 		}
 	}
+	if args[0] == nil { // the empty list
+		args = append(slip.List{slip.List{}}, args[1:]...)
+	}
 	switch ta := args[0].(type) {
 	case slip.List:
 		if end < 0 {
